@@ -72,7 +72,13 @@ def main(argv=None) -> int:
         if a.replay:
             data = json.loads(Path(a.replay).read_text())
             ctx.is_replay = True
-            mod.replay(ctx, data)
+            if data.get("replay", {}).get("kind") == "crash":
+                mod.run(ctx)            # an exception out of the implementation: re-run the check that met it
+            elif data.get("replay", {}).get("module") == "Trace_WireLayout":
+                from . import wirelayout
+                wirelayout.check(ctx, [data["replay"]["meta"]["struct"]])
+            else:
+                mod.replay(ctx, data)
         elif a.selftest:
             mod.selftest(ctx)
         else:
@@ -84,8 +90,30 @@ def main(argv=None) -> int:
     except T.MachineryError as e:
         print(f"MACHINERY-ERROR property={prop}: {e}", file=sys.stderr)
         return 2
-    except Exception:
-        traceback.print_exc()
+    except Exception as e:
+        tb = traceback.format_exc()
+        cause = getattr(e, "__cause__", None)
+        if cause is not None:
+            tb += "\n" + str(cause)            # multiprocessing's RemoteTraceback carries the worker's traceback as text
+        # where was the exception raised?  innermost frame inside the repository's package = the implementation raised during a run the
+        # harness expected to complete: that is an observable misbehaviour of the code (a verdict), not a failure of the machinery
+        import re
+        files = re.findall(r'File "([^"]+)", line (\d+), in (\S+)', tb)
+        repo_root = str(core.REPO)
+        inner = files[-1] if files else ("", "0", "")
+        if inner[0].startswith(repo_root + "/bellows/"):
+            where = inner[0][len(repo_root) + 1:]
+            ctx.violations.append(core.Violation(
+                signature=f"crash:{type(e).__name__}:{where}:{inner[2]}",
+                what=f"the implementation raised {type(e).__name__} in {where}:{inner[1]} ({inner[2]}) during a run the check expected to complete: {str(e)[:200]}",
+                replay={"kind": "crash", "exception": type(e).__name__, "where": f"{where}:{inner[1]}", "function": inner[2], "traceback": tb[-6000:]}))
+            ctx.notes["crash"] = "the check was cut short by an exception out of the implementation; coverage numbers are those reached before it"
+            if not ctx.rule:
+                ctx.rule = "run cut short by an exception raised inside the implementation"
+            rc = core.finish(ctx, getattr(mod, "LEVEL", "model_checking"))
+            print(f"{prop} {a.tier}: states={ctx.states} traces={ctx.traces_validated} events={ctx.events_validated} violations={len(ctx.violations)} rc={rc}")
+            return rc
+        sys.stderr.write(tb)
         print(f"MACHINERY-ERROR property={prop}: unexpected harness exception", file=sys.stderr)
         return 2
     finally:
@@ -93,4 +121,7 @@ def main(argv=None) -> int:
 
 
 if __name__ == "__main__":
-    sys.exit(main())
+    _rc = main()
+    sys.stdout.flush()
+    sys.stderr.flush()
+    os._exit(_rc)        # threads a broken implementation left running (C20) must not keep the check alive
